@@ -59,6 +59,8 @@ def check(rep):
     quick = rep.tier == "quick"
     rnd = random.Random(rep.seed + 10)
     pool = [t for t in gi.DOCUMENTED if "schulz_zimm(1000, 900)" not in t] + [t for a, t, _ in gi.cases(rnd.randrange(1 << 30), 40 if quick else 600) if a != "defective_list"] + TYPABLE
+    # inputs whose growth takes genuinely random picks along transition lists (the one draw site that does not go through choose_compatible_weight)
+    pool += [t for a, t, _ in gi.cases(rnd.randrange(1 << 30), 12 if quick else 150, archetypes=["markov_copolymer"])]
     pool = [t for t in pool if gbigsmiles.Molecule(t).generable]
     n_hist = 40 if quick else 2500
     # plan the histories first, so that all baselines are computed in ONE fresh process
@@ -83,6 +85,26 @@ def check(rep):
     evaluations = 0
     distinct = set()
     ophist = {}
+    # independence of the library's global generator, directly: every pool text, one supplied seed, three different global states
+    # (and a second generation from the same object): identical molecules
+    sweep = 0
+    for t in sorted(set(pool)):
+        seed = rnd.randrange(1000)
+        outs = []
+        o = gbigsmiles.Molecule(t)
+        for gstate in (11, 222, 3333):
+            core._GLOBAL_RNG.bit_generator.state = np.random.default_rng(gstate).bit_generator.state
+            try:
+                with fw.time_limit(60):
+                    g = (o if gstate != 222 else gbigsmiles.Molecule(t)).generate(rng=np.random.default_rng(seed))
+                outs.append((g.smiles, round(float(g.weight), 6)))
+            except Exception as e:  # noqa
+                outs.append(("error", fw.exc_class(e)))
+        sweep += 1
+        evaluations += 1
+        if len(set(outs)) != 1:
+            rep.fail("oracle", f"generate({t!r}, seed {seed}) depends on the state of the library's global generator: {[x[0][:40] for x in outs]}", {"texts": [t], "seed": seed, "mode": "global_state_sweep"},
+                     expected=str(outs[0]), observed=str(outs[1:]))
     for texts, steps in plans:
         objs = [gbigsmiles.Molecule(t) for t in texts]
         dumps = [deep_dump(o) for o in objs]
@@ -156,7 +178,7 @@ def check(rep):
             if failed:
                 break
         distinct.add((tuple(texts), tuple(steps)))
-    rep.coverage.update({"evaluations": evaluations, "distinct_nontrivial": len(distinct), "histories": len(plans), "baselines_in_fresh_process": len(keys), "operations": ophist,
+    rep.coverage.update({"evaluations": evaluations, "distinct_nontrivial": len(distinct), "histories": len(plans), "global_state_sweep_texts": sweep, "baselines_in_fresh_process": len(keys), "operations": ophist,
                          "rule": "random operation histories (4-12 steps over 1-4 live objects of every archetype): generate with a supplied seeded generator, generate with the "
                                  "(re-seeded) global generator, print, both graphs, mirror, mutation of the copies returned by .elements and of returned molecules, re-parse, typing, "
                                  "re-seeding; distinct_nontrivial = distinct histories",
@@ -167,6 +189,17 @@ def check(rep):
 
 
 def replay(case):
+    import gbigsmiles
+    from gbigsmiles import core
     print("replay:", case.get("what"))
-    print(case.get("case"))
+    c = case.get("case") or {}
+    if c.get("mode") == "global_state_sweep":
+        t, seed = c["texts"][0], c["seed"]
+        outs = []
+        for gstate in (11, 222, 3333):
+            core._GLOBAL_RNG.bit_generator.state = np.random.default_rng(gstate).bit_generator.state
+            outs.append(gbigsmiles.Molecule(t).generate(rng=np.random.default_rng(seed)).smiles)
+            print(f"global state {gstate}: {outs[-1]}")
+        return 0 if len(set(outs)) == 1 else 1
+    print(c)
     return 1
